@@ -808,7 +808,12 @@ fn parse_and_verify_peer_id(
             tracing::debug!(target: LOG_TARGET, "payload without signature");
         })?;
 
-    let peer_id = PeerId::from_public_key_protobuf(&identity);
+    // Derive the peer ID from the decoded key (canonical encoding), not from the received bytes.
+    let peer_id = match &remote_public_key {
+        RemotePublicKey::Ed25519(key) => PeerId::from_public_key(&PublicKey::Ed25519(key.clone())),
+        #[cfg(feature = "rsa")]
+        RemotePublicKey::Rsa(_) => PeerId::from_public_key_protobuf(&identity),
+    };
 
     if !remote_public_key.verify(
         &[STATIC_KEY_DOMAIN.as_bytes(), dh_remote_pubkey].concat(),
